@@ -77,6 +77,31 @@ var headTampers = []headTamper{
 		n.Head = cidlink.Link{Cid: randCid(r)}
 		return n
 	}},
+	{"cid-other-form-of-same-multihash", func(r *rand.Rand, h, o *head.SignedHead, oid Ident) *head.SignedHead {
+		// another CID over the same digest: other version, or other codec (a different block as far as IPLD goes)
+		n := cpHead(h)
+		c0 := h.Head.(cidlink.Link).Cid
+		var c1 cid.Cid
+		if c0.Version() == 0 {
+			c1 = cid.NewCidV1([]uint64{cid.DagProtobuf, cid.DagCBOR, cid.DagJSON, cid.Raw}[r.Intn(4)], c0.Hash())
+		} else if dm, err := multihash.Decode(c0.Hash()); err == nil && dm.Code == multihash.SHA2_256 && dm.Length == 32 && r.Intn(2) == 0 {
+			c1 = cid.NewCidV0(c0.Hash())
+		} else {
+			var others []uint64
+			for _, k := range []uint64{cid.DagProtobuf, cid.DagCBOR, cid.DagJSON, cid.Raw} {
+				if k != c0.Type() {
+					others = append(others, k)
+				}
+			}
+			codec := others[r.Intn(len(others))]
+			c1 = cid.NewCidV1(codec, c0.Hash())
+		}
+		if c1.Equals(c0) {
+			return nil
+		}
+		n.Head = cidlink.Link{Cid: c1}
+		return n
+	}},
 	{"topic-changed", func(r *rand.Rand, h, o *head.SignedHead, oid Ident) *head.SignedHead {
 		n := cpHead(h)
 		t := "x"
